@@ -48,6 +48,7 @@ def check_events(events, label, fifo):
 def cases(rng, tier):
     n = 40 if tier == "quick" else 1000
     out = [dict(seed=3000 + i, n=70, profile=p) for i, p in enumerate(mc.PROFILES)]
+    out += mc.connection_corpus() + mc.hostile_corpus()
     for _ in range(n):
         out.append(dict(seed=rng.randrange(10**9), n=rng.choice([30, 60, 120]), profile=rng.choice(mc.PROFILES)))
     m = 60 if tier == "quick" else 1500
